@@ -293,6 +293,9 @@ class ListWalk:
                     isinstance(st.op, (ast.Add, ast.Sub)) and isinstance(self.env[norm(st.target)], int):
                 v = self.ev(st.value)
                 self.env[norm(st.target)] += v if isinstance(st.op, ast.Add) else -v
+            elif isinstance(st, ast.AugAssign) and isinstance(st.target, ast.Subscript) and isinstance(st.op, (ast.Add, ast.Sub)):
+                box, key, v = self.ev(st.target.value), self.ev(st.target.slice), self.ev(st.value)
+                box[key] = box[key] + v if isinstance(st.op, ast.Add) else box[key] - v
             elif isinstance(st, ast.AugAssign) and isinstance(st.target, ast.Name):
                 cur, v = self.env[st.target.id], self.ev(st.value)
                 if isinstance(st.op, ast.Add):
@@ -320,6 +323,8 @@ class ListWalk:
             elif isinstance(st, ast.FunctionDef):
                 self.env[st.name] = st            # a local function: kept as a value (callable through self.funcs if registered)
                 self.funcs.setdefault(st.name, st)
+            elif isinstance(st, ast.Import) and all(a.name in getattr(self, 'allowed_imports', ()) for a in st.names):
+                pass                                   # the module's members are provided as dotted names in env
             elif isinstance(st, (ast.Import, ast.ImportFrom)):
                 raise ImportError(f"{norm(st)[:60]} (no such module in the model)")
             elif isinstance(st, ast.Assert):
